@@ -215,6 +215,10 @@ def run(ctx: core.Ctx):
         d0 = disagreements[0]
         ctx.correspondence_broken("encode(stepped) vs attribute assignment",
                                   {"count": len(disagreements), "first": {"class": d0[1], "function": d0[2], "value": d0[3], "real": [d0[4], d0[5]], "model": d0[6]}})
+    # history independence: interleaved threads on shared descriptors / converters, repeats, receiver reports in between (scheduled real objects)
+    from .. import b2check, gen
+    b2check.run_b2(ctx, lambda rng_, th: [(gen.set_race(rng_, T), rng_.randrange(10 ** 9), 0) for _ in range(12000 if th else 400)], ["C11r"],
+                   label="stepped writes from two threads through shared descriptors, with repeats and receiver reports in between", accept=False)
     ctx.assumptions += [
         "Python float(text) is the correctly rounded double of the decimal literal (CPython strtod); checked on every transmitted text",
         "values are finite ints/floats with |v| <= 1e4 (the property's domain); the Lean theorems need no bound",
@@ -226,6 +230,9 @@ def replay(ctx: core.Ctx, path):
     from ..realobj import make
 
     rp = json.load(open(path))["replay"]
+    if rp.get("path") == "b2":
+        from .. import b2check
+        return b2check.replay_b2(rp, ["C11r"])
     obj, conn = make(rp["class"])
     v = eval(rp["value"])
     try:
